@@ -180,39 +180,41 @@ example : get_equinox_solstice (fun x => .ok x) (fun _ => 0) 1 2000 "spring" =
 
 /-! ## Equation of time -/
 
-/-- The "±180° reduction" `e = e - 360.0 * round(e / 360.0)` does NOT reduce: carried out on `Angle`
-    objects as coded it returns `e` unchanged for every `e` an Angle can hold (|e| < 360). -/
-theorem eot_reduction_is_identity (e : ℝ) (h : |e| < 360) : eot_reduce e = e := eot_reduce_id h
+/-- "the reduction brings the value into its documented interval": `e - 360.0 * round(e / 360.0)`
+    (floats, `round` to the nearest int with ties to even) lies in [−180°, 180°] — both ends occur:
+    180 stays 180, 540 becomes −180 — and differs from `e` by a whole number of turns, for EVERY `e`. -/
+theorem eot_reduction (e : ℝ) :
+    -180 ≤ eot_reduce e ∧ eot_reduce e ≤ 180 ∧ ∃ n : ℤ, eot_reduce e = e - 360 * n := by
+  unfold eot_reduce; exact wrap180_range e
 
-/-- The clause "the reduction brings the value into (−180°, 180°]" is false of the code:
-    358° (L0 = 359°, α = 1°: the day after the March equinox) stays 358°, and the function then
-    reports 352 minutes. -/
-theorem eot_reduction_counterexample :
-    ¬ (-180 < eot_reduce 358 ∧ eot_reduce 358 ≤ 180) ∧ (eot_split (eot_reduce 358)).1 = 352 := by
-  have h : eot_reduce 358 = 358 := eot_reduce_id (by norm_num)
-  rw [h]
-  refine ⟨by norm_num, ?_⟩
-  unfold eot_split aMulF aReduce ple pabs pmod ptrunc imod ofInt
-  norm_num [show Int.fmod 1432 360 = 352 from by decide]
+/-- The former failing input (L0 = 359°, α = 1°, the day after the March equinox): 358° is now −2°,
+    i.e. −8 minutes, not 352. -/
+example : eot_reduce 358 = -2 ∧ (eot_split (eot_reduce 358)).1 = -8 := by
+  have h : roundHE ((358 : ℝ) / 360.0) = 1 := by
+    have hf : pfloor ((358 : ℝ) / 360.0) = 0 := by
+      unfold pfloor; exact Int.floor_eq_iff.mpr ⟨by norm_num, by norm_num⟩
+    unfold roundHE plt ofInt
+    simp only [hf]
+    norm_num
+  have h2 : eot_reduce 358 = -2 := by unfold eot_reduce wrap180 ofInt; rw [h]; norm_num
+  refine ⟨h2, ?_⟩
+  rw [h2]
+  unfold eot_split ptrunc
+  norm_num
 
-/-- What remains true of the reduction (explicit hypothesis: the value already is in (−180°, 180°]):
-    it stays there. Missing for the full clause: any reduction at all for 180° < |e| < 360°. -/
-theorem eot_reduction_partial (e : ℝ) (h : -180 < e ∧ e ≤ 180) :
-    -180 < eot_reduce e ∧ eot_reduce e ≤ 180 := by
-  rw [eot_reduce_id (by rw [abs_lt]; constructor <;> linarith)]
-  exact h
-
-/-- "(m, s) recombine to |E|": with `E = 4·e` minutes as the code forms it (`e *= 4.0`, an Angle),
-    `0 ≤ s < 60`, `|E| = |m| + s/60`, and `m` carries the sign of `E` exactly when `|E| ≥ 1` minute;
+/-- "(m, s) recombine to |E|": with `E = 4·e` minutes (`e *= 4.0`), `0 ≤ s < 60`,
+    `|E| = |m| + s/60`, and `m` carries the sign of `E` exactly when `|E| ≥ 1` minute;
     for `|E| < 1` minute `m = 0` and the sign is lost (next theorem). -/
 theorem eot_split_recombine (e : ℝ) :
     0 ≤ (eot_split e).2 ∧ (eot_split e).2 < 60 ∧
-    |aMulF e 4.0| = |(((eot_split e).1 : ℤ) : ℝ)| + (eot_split e).2 / 60 ∧
-    (1 ≤ aMulF e 4.0 → 1 ≤ (eot_split e).1) ∧ (aMulF e 4.0 ≤ -1 → (eot_split e).1 ≤ -1) ∧
-    (|aMulF e 4.0| < 1 → (eot_split e).1 = 0) := by
+    |e * 4| = |(((eot_split e).1 : ℤ) : ℝ)| + (eot_split e).2 / 60 ∧
+    (1 ≤ e * 4 → 1 ≤ (eot_split e).1) ∧ (e * 4 ≤ -1 → (eot_split e).1 ≤ -1) ∧
+    (|e * 4| < 1 → (eot_split e).1 = 0) := by
   unfold eot_split
   simp only
-  set x := aMulF e 4.0
+  have h4 : e * 4.0 = e * 4 := by norm_num
+  rw [h4]
+  set x := e * 4
   have hfl := Int.floor_le (pabs x)
   have hlt := Int.lt_floor_add_one (pabs x)
   obtain ⟨s1, s2, s3⟩ := ptrunc_sign x
@@ -225,12 +227,8 @@ theorem eot_split_recombine (e : ℝ) :
     the same `(0, s)`. (Known finding C14-eot-sign-below-one-minute.) -/
 theorem eot_split_sign_lost (e : ℝ) (h : |e| < 1 / 4) :
     eot_split (-e) = eot_split e ∧ (eot_split e).1 = 0 := by
-  have hm : aMulF e 4.0 = e * 4 := by
-    unfold aMulF
-    rw [aReduce_of_abs_lt (by rw [abs_mul]; norm_num; linarith)]; norm_num
-  have hm' : aMulF (-e) 4.0 = -(e * 4) := by
-    unfold aMulF
-    rw [aReduce_of_abs_lt (by rw [abs_mul, abs_neg]; norm_num; linarith)]; norm_num
+  have hm : e * 4.0 = e * 4 := by norm_num
+  have hm' : -e * 4.0 = -(e * 4) := by norm_num
   have h4 : |e * 4| < 1 := by rw [abs_mul]; norm_num; linarith
   have z1 := (ptrunc_sign (e * 4)).2.2 h4
   have z2 := (ptrunc_sign (-(e * 4))).2.2 (by rw [abs_neg]; exact h4)
@@ -529,5 +527,25 @@ theorem rts_interpol_meeus (n y1 y2 y3 : ℝ) (ha : |y2 - y1| < 180) (hb : |y3 -
   simp only [ra, rb, ofInt]
   norm_num
   rw [aReduce_of_abs_lt (by norm_num at hr ⊢; exact hr)]
+
+/-- The transit hour angle is brought to ±180° before it becomes a correction: one pass of the
+    iteration moves the transit estimate by at most half a day (`|Δm0| = |H|/360 ≤ 1/2`), whatever the
+    inputs. (Before the fix a hour angle of 359.99° moved it by a whole day.) -/
+theorem rts_transit_step_bound (lon lat a1 d1 a2 d2 a3 d3 h0 dt th0 m0 m1 m2 n0 n1 n2 : ℝ)
+    (h : rts_iter lon lat a1 d1 a2 d2 a3 d3 h0 dt th0 (m0, m1, m2) = .ok (n0, n1, n2)) :
+    |n0 - m0| ≤ 1 / 2 := by
+  unfold rts_iter at h
+  simp only at h
+  split at h <;> try (simp at h; done)
+  split at h <;> try (simp at h; done)
+  split at h <;> try (simp at h; done)
+  split at h <;> try (simp at h; done)
+  simp only [Except.ok.injEq, Prod.mk.injEq] at h
+  obtain ⟨h0', _, _⟩ := h
+  rw [← h0']
+  obtain ⟨hl, hu, _⟩ := wrap180_range
+    (aSub (aSub (aAdd th0 (360.985647 * m0)) lon) (rts_interpol (m0 + dt / 86400.0) a1 a2 a3))
+  rw [abs_le]
+  constructor <;> norm_num <;> linarith
 
 end Pymeeus.C14
